@@ -159,11 +159,35 @@ def run(idx, rep, tier):
             ok = sq and main and summed
             rep.decide(ok, "trace-rule", rule.role, f"squareness {'checked' if sq else 'NOT checked'}; main diagonal with the caller's algorithm {'taken' if main else 'NOT taken'}; {'summed' if summed else 'NOT summed'}",
                        detail="" if ok else "generic", locs=[rule.loc])
-        elif kinds == ["Kronecker"]:
+        else:
+            # structural trace rules: the returned number, as a term over the operand's factors (scalar TERM), against the identity
+            # for the kind: tr(⊗ Aᵢ) = Π tr Aᵢ, tr(Σ Aᵢ) = Σ tr Aᵢ, tr(⊕ mᵢ·Aᵢ) = Σ mᵢ tr Aᵢ, tr(⊞ Aᵢ) = Σ tr Aᵢ · n / nᵢ, tr(c I) = c n
+            from sa.scalar import VAR, ScalarEval, equal as sequal, has_opaque as shas_opaque, show as sshow, snorm
+            TR, SZ = ("trace", VAR), ("size", VAR)
+            oracle = {
+                "Kronecker": [("fprod", TR)],
+                "Sum": [("fsum", TR)],
+                "BlockDiag": [("fsum", ("mul", (("mult", VAR), TR)))],
+                "KronSum": [("fsum", ("mul", (("fprod", SZ), ("inv", SZ), TR))), ("fsum", ("mul", (("dim", f"{a}.n"), ("inv", SZ), TR)))],
+                "ScalarMul": [("mul", (("ssym", f"{a}.c"), ("dim", f"{a}.n")))],
+                "Identity": [("dim", f"{a}.n")],
+                "Diagonal": [("sum", ("vec", f"{a}.diag"))],
+            }
+            kind = kinds[0] if len(kinds) == 1 else None
             rec = [c for c in df.calls(fi.node) if isinstance(c.func, ast.Name) and c.func.id == "trace"]
-            red = product_like(idx, fi)
-            ok = bool(rec) and all(len(c.args) >= 2 and ast.unparse(c.args[1]) == algp for c in rec) and red == "product"
-            rep.decide(ok, "trace-rule", rule.role, f"tr(⊗ Aᵢ) = Π tr(Aᵢ): reduction is {red}, algorithm {'forwarded' if rec else 'missing'}", detail="" if ok else "kron", locs=[rule.loc])
+            fwd = all(len(c.args) >= 2 and ast.unparse(c.args[1]) == algp or any(kw.arg == algp and ast.unparse(kw.value) == algp for kw in c.keywords) for c in rec)
+            se = ScalarEval(idx)
+            for r in [r for r in df.returns(fi.node) if r.value is not None]:
+                t = snorm(se.eval_in(fi, r.value))
+                if kind not in oracle:
+                    rep.undecided("trace-rule", rule.role, f"returns {sshow(t)[:100]}: no trace identity tabulated for this kind", locs=[idx.loc(fi.module, r)])
+                    continue
+                verdicts = [sequal(t, w) for w in oracle[kind]]
+                ok = True if any(v is True for v in verdicts) else (None if (shas_opaque(t) or any(v is None for v in verdicts)) else False)
+                if ok is True and rec and not fwd:
+                    ok = False
+                rep.decide(ok, "trace-rule", rule.role, f"returns {sshow(t)[:120]}; required {sshow(snorm(oracle[kind][0]))}" + ("" if fwd or not rec else "; a recursive trace call drops the caller's algorithm"),
+                           detail="" if ok else ("kron" if kind == "Kronecker" else "identity"), locs=[idx.loc(fi.module, r)])
     # ---- Exact / Hutch objects forward k
     for cname in ("Exact", "Hutch"):
         if not idx.has_cls(cname):
